@@ -667,6 +667,32 @@ def wl_rescaling(run, rng, idx):
                   float(np.max(np.abs(arr1 - kq))), 1e-6)
             judge("unit_tangent_towards->point_along(vs unscaled)",
                   float(np.max(np.abs(arr1 - arr0))), 1e-6)
+            # the angle at p between the directions towards q and towards a
+            # third point r, read off the tangent vectors themselves (seeded
+            # change C12-r3-3: projection to the tangent space assuming a unit
+            # basepoint representative; point_along / isometry_to re-orthogonalise
+            # and hide it, the stored vector and angle() do not)
+            kr = rh.rand_ball(rng, d, shape, rmax=0.95)
+            R0 = rh.klein_to_proj(kr)
+            lr = rand_factors(rng, shape + (1,), pattern)
+            if np.all(np.linalg.norm(kp - kr, axis=-1) > 1e-3):
+                r0, r1 = Point(R0.copy()), Point((R0 * lr).copy())
+                # fresh basepoint objects: earlier queries may have normalised p0, p1 in place
+                pa, pb = Point(P0.copy()), Point(P1.copy())
+                a0 = np.asarray(pa.unit_tangent_towards(q0).angle(pa.unit_tangent_towards(r0)))
+                a1 = np.asarray(pb.unit_tangent_towards(q1).angle(pb.unit_tangent_towards(r1)))
+                aref = rh.angle_at(P0, Q0, R0)
+                # arccos is ill-conditioned at 0 and pi: compare cosines there
+                judge("tangent-angle:vs-unscaled", float(np.max(np.abs(np.cos(a1) - np.cos(a0)))), 1e-7)
+                judge("tangent-angle:vs-reference", float(np.max(np.abs(np.cos(a1) - np.cos(aref)))), 1e-6)
+                # the stored tangent vector is tangent at the basepoint whatever
+                # representative was given: <vector, point> = 0 relative to sizes
+                tvb = pb.unit_tangent_towards(q1)
+                vec = np.asarray(tvb.vector, dtype=float)
+                pt = np.asarray(tvb.point, dtype=float)
+                with np.errstate(all="ignore"):
+                    defect = np.abs(rh.mink(vec, pt)) / (np.linalg.norm(vec, axis=-1) * np.linalg.norm(pt, axis=-1))
+                judge("tangent-vector-orthogonal-to-basepoint", float(np.max(defect)), 1e-7)
             # segments with their ideal endpoints
             s0 = Segment(p0, q0)
             s1 = Segment(p1, q1)
